@@ -337,9 +337,16 @@ impl<Sink: TokenSink> Tokenizer<Sink> {
     // NB: this doesn't set the current input character.
     fn eat(&self, input: &BufferQueue, pat: &str, eq: fn(&u8, &u8) -> bool) -> Option<bool> {
         if self.ignore_lf.get() {
-            self.ignore_lf.set(false);
-            if self.peek(input) == Some('\n') {
-                self.discard_char(input);
+            match self.peek(input) {
+                Some(c) => {
+                    self.ignore_lf.set(false);
+                    if c == '\n' {
+                        self.discard_char(input);
+                    }
+                },
+                // The LF of a CRLF pair may still arrive with the next chunk.
+                None if !self.at_eof.get() => return None,
+                None => self.ignore_lf.set(false),
             }
         }
 
